@@ -555,7 +555,7 @@ func call(i *interpreter, caller *frame, callpos token.Pos, fn value, args []val
 	switch fn := fn.(type) {
 	case *ssa.Function:
 		if fn == nil {
-			panic("call of nil function") // nil of func type
+			panic(rtErr{"invalid memory address or nil pointer dereference (call of nil function)"}) // nil of func type
 		}
 		return callSSA(i, caller, callpos, fn, args, nil)
 	case *closure:
